@@ -31,7 +31,7 @@ ENGINES = {
         'avel_tus': [('fenv_ops.cpp', ['-frounding-math'])] +   # per configuration, AVEL header first
                     [('fenv_api.cpp', ['-frounding-math', '-DAPI_PART=%d' % k], 'fenv_api_%d.o' % k) for k in range(10)],
         'link': ['-lm'],
-        'configs': C.vector_configs,
+        'configs': C.fenv_configs,
         'seeded_runs': {'quick': 400000, 'thorough': 40000000},
         'gate_n': {'quick': 200, 'thorough': 5000},
         'required_probes': {
